@@ -537,6 +537,39 @@ def _param_names(rec):
     return out[1:]
 
 
+def _fn_renames(all_fns, known_sigs):
+    """{current key: key in the tree the rules were written against} for functions that were renamed: a known function
+    that is gone is paired with a new function of the same parent path (module / impl) and the same signature, when that
+    pairing is unique both ways.  Everything else is left alone (a missing anchor then fails closed)."""
+    if not known_sigs:
+        return {}
+    present = {}
+    for k, rec in all_fns.items():
+        if rec.get("kind") in ("Fn", "AssocFn") and "{closure" not in k and not rec.get("from_expansion") and not rec.get("derived") and rec.get("locals"):
+            present[k] = [l["ty"] for l in rec["locals"][:rec.get("arg_count", 0) + 1]]
+    gone = [k for k in known_sigs if k not in present]
+    new = [k for k in present if k not in known_sigs]
+    parent = lambda k: k.rsplit("::", 1)[0] if "::" in k else ""
+    out = {}
+    for g in gone:
+        cands = [n for n in new if parent(n) == parent(g) and present[n] == known_sigs[g]]
+        if len(cands) != 1:
+            continue
+        back = [g2 for g2 in gone if parent(g2) == parent(cands[0]) and known_sigs[g2] == present[cands[0]]]
+        if len(back) == 1:
+            out[cands[0]] = g
+    return out
+
+
+def _apply_fn_renames(text, ren):
+    """rewrite function paths in the JSON text of one target (keys, callee / resolved names, closure parents, fn-item types)"""
+    import re
+    for newk, oldk in sorted(ren.items(), key=lambda x: -len(x[0])):
+        pat = re.compile(re.escape(json.dumps(newk)[1:-1]) + r"(?![A-Za-z0-9_])")
+        text = pat.sub(lambda m_: json.dumps(oldk)[1:-1], text)
+    return text
+
+
 def _field_renames(adts, known_fields):
     """{(adt, variant): {current field name: name in the tree the rules were written against}} for the local types whose
     fields were renamed.  Names present in both trees keep themselves; a new name is paired with a vanished name of the
@@ -655,12 +688,24 @@ class Program:
         known_params = inlinemod.load_known_params()
         known_fields = inlinemod.load_known_fields()
         self.renamed_fields = {}
+        texts = {}
+        parsed = {}
+        all_fns = {}
         for t in factsmod.EXPECTED_TARGETS:
             path = os.path.join(facts_dir, t + ".json")
             if not os.path.isfile(path):
                 raise AnchorMissing("fact file missing: %s" % t)
             with open(path) as fh:
-                d = json.load(fh)
+                texts[t] = fh.read()
+            parsed[t] = json.loads(texts[t])
+            for k_, rec_ in parsed[t].get("fns", {}).items():
+                all_fns.setdefault(k_, rec_)
+        self.renamed_fns = _fn_renames(all_fns, inlinemod.load_known_sigs())   # current name -> the name the rules use
+        del all_fns
+        for t in factsmod.EXPECTED_TARGETS:
+            d = json.loads(_apply_fn_renames(texts[t], self.renamed_fns)) if self.renamed_fns else parsed[t]
+            texts[t] = None
+            parsed[t] = None
             if d.get("schema") != factsmod.SCHEMA:
                 raise AnchorMissing("fact schema mismatch in %s" % t)
             self.targets[t] = d
